@@ -48,7 +48,7 @@ def _separate(points, minsep=0.6):
     return np.array(out)
 
 
-PATTERN_CLASSES = ["generic", "generic", "symmetric", "planar", "collinear", "near-collinear", "chiral", "single"]
+PATTERN_CLASSES = ["generic", "generic", "symmetric", "planar", "collinear", "near-collinear", "chiral", "single", "rod"]
 
 
 @st.composite
@@ -72,6 +72,23 @@ def pattern(draw, classes=None, max_atoms=6, alphabet=None, min_atoms=1):
         pos = np.array([k * step * d for k in ks])
         order = draw(st.permutations(range(n)))
         pos = pos[list(order)]
+        els = [draw(el) for _ in range(n)]
+    elif cls == "rod":
+        # linker-like: the two end atoms lie exactly on a signed coordinate axis (as in hand-drawn CML files), inner
+        # atoms have transverse offsets; the atom order decides the sign of the automatically chosen axis
+        n = draw(st.integers(max(3, min_atoms), min(5, max(3, max_atoms))))
+        axis = draw(st.integers(0, 2))
+        L = draw(grid_float(1.5, 4.0))
+        pos = np.zeros((n, 3))
+        pos[1, axis] = L
+        for k in range(2, n):
+            pos[k, axis] = draw(grid_float(0.3, L - 0.3))
+            pos[k, (axis + 1) % 3] = draw(grid_float(-0.8, 0.8))
+            pos[k, (axis + 2) % 3] = draw(grid_float(-0.8, 0.8))
+        pos = pos + np.array([draw(grid_float(-2, 2)) for _ in range(3)])
+        pos = _separate(pos)
+        order = list(draw(st.permutations(range(n))))
+        pos = pos[order]
         els = [draw(el) for _ in range(n)]
     elif cls == "near-collinear":
         n = draw(st.integers(max(3, min_atoms), min(4, max(3, max_atoms))))
